@@ -40,7 +40,7 @@ VARIABLES role,      \* [Nodes -> role] the node's own role
           loc,       \* [Nodes -> [ct: [Nodes -> Types], trans: SUBSET Nodes, attr: [Nodes -> ReqTypes \cup {"no"}], rej: SUBSET Nodes]]
           closed,    \* [Nodes -> SUBSET Nodes] peers whose connection this node has closed / seen closed
           net,       \* [Nodes \X Nodes -> Seq(msg)] packets queued from a to b
-          byz,       \* pairs <<b, a>> for which a forged response was injected
+          byz,       \* tainted pairs: a forged response was injected or a request outside the discover decisions was sent
           nrole, ninj, nops, hist
 vars == <<role, view, loc, closed, net, byz, nrole, ninj, nops, hist>>
 
@@ -162,13 +162,35 @@ Init == /\ role \in RoleCfgs
 CloseAt(a, b) == /\ closed' = [closed EXCEPT ![a] = @ \cup {b}]
 Dropped(L, b) == [L EXCEPT !.trans = @ \ {b}, !.rej = @ \ {b}]
 
+\* The decisions of the discover loop (discoverRoutine / discoverFriends / discoverParents / discoverUncles):
+\* which request a node with its role would send to peer b in the current state.
+\*   root:           friend to every peer known as root that is not a friend yet; none to a friend that is
+\*                   known as seed but not root (a friend known as neither is closed);
+\*   seed (exactly): seeks ROOT peers, normal: seeks SEED peers -- as parent while a parent slot is free
+\*                   (candidates: orphanage or uncle), else as uncle while an uncle slot is free; none to
+\*                   every peer that is still a friend.
+Sought(a) == IF role[a] = {"seed"} THEN "root" ELSE "seed"
+Seeks(a, b, t) ==
+  LET L == loc[a] IN
+  IF IsRoot(role[a])
+  THEN \/ t = "friend" /\ IsRoot(view[a][b]) /\ L.ct[b] # "friend"
+       \/ t = "none" /\ L.ct[b] = "friend" /\ ~IsRoot(view[a][b]) /\ IsSeed(view[a][b])
+  ELSE \/ t = "none" /\ L.ct[b] = "friend"
+       \/ t = "parent" /\ Sought(a) \in view[a][b] /\ L.ct[b] \in {"none", "uncle"}
+             /\ CountL(L, a, "parent") < LimParent
+       \/ t = "uncle" /\ Sought(a) \in view[a][b] /\ CountL(L, a, "parent") >= LimParent
+             /\ CountL(L, a, "uncle") < LimUncle
+             /\ L.ct[b] \in (IF Sought(a) = "seed" THEN {"none"} ELSE {"none", "uncle"})
+
+\* a request outside the discover decisions (a foreign implementation, a stale decision) taints the pair
 ConnRequest(a, b, t) ==
   /\ b \in Peers(a) /\ b \notin closed[a]
   /\ LET tr == Transit(loc[a], a, b, t) IN
      /\ loc' = [loc EXCEPT ![a] = tr.L]
      /\ net' = [net EXCEPT ![<<a, b>>] = @ \o tr.send]
-     /\ UNCHANGED <<role, view, closed, byz, nrole, ninj>>
-     /\ Log(Ev("request", a, b, t, "", IF tr.ok THEN "sent" ELSE "refused"))
+     /\ byz' = IF Seeks(a, b, t) THEN byz ELSE byz \cup {<<a, b>>, <<b, a>>}
+     /\ UNCHANGED <<role, view, closed, nrole, ninj>>
+     /\ Log(Ev("request", a, b, t, IF Seeks(a, b, t) THEN "discover" ELSE "foreign", IF tr.ok THEN "sent" ELSE "refused"))
 
 \* the head packet of a->b reaches b (dropped if b has closed that connection)
 Deliver(a, b) ==
@@ -239,7 +261,8 @@ RootsNotInTree ==
        (b \in Peers(a) /\ loc'[a].ct[b] # loc[a].ct[b] /\ TreeType(loc'[a].ct[b]))
           => ~(IsRoot(role[a]) /\ IsRoot(view[a][b]))]_vars
 \* both ends agree on complementary types once the negotiation between them is over: nothing in
-\* flight or in transit between them, both sides open, no forged packets, no role ever changed
+\* flight or in transit between them, both sides open, only discover-loop requests and no forged
+\* packets between them, no role ever changed (views accurate)
 Compl(t) == CASE t = "parent" -> "children" [] t = "children" -> "parent" [] t = "uncle" -> "nephew"
               [] t = "nephew" -> "uncle" [] OTHER -> t
 Quiet(a, b) == /\ net[<<a, b>>] = <<>> /\ net[<<b, a>>] = <<>>
